@@ -11,7 +11,7 @@ fn main() {
     if args.len() < 2 {
         usage();
     }
-    let Some((id, run, replay, level)) = props::lookup(&args[0]) else {
+    let Some((id, run, replay, level, worker)) = props::lookup(&args[0]) else {
         eprintln!("unknown property {}", args[0]);
         std::process::exit(2)
     };
@@ -21,6 +21,14 @@ fn main() {
         .map(|v| v.rem_euclid(1i128 << 62) as u64)
         .unwrap_or(20260924);
     install_panic_hook();
+    if args.get(2).map(|s| s.as_str()) == Some("--worker") {
+        // child of an isolated run: mjv <id> <tier> --worker <part> <mode> ...
+        if !worker(&args[3], &args[4..]) {
+            eprintln!("no part named {} in {}", args[3], id);
+            std::process::exit(2);
+        }
+        std::process::exit(0);
+    }
     if args[1] == "--replay" {
         let Some(path) = args.get(2) else { usage() };
         let text = std::fs::read_to_string(path).unwrap_or_else(|e| {
